@@ -137,4 +137,9 @@ def main_wrapper(fn):
     except (Machinery, tlc.TlcError) as e:
         print("MACHINERY-FAILURE: %s" % (str(e)[:6000],))
         sys.exit(2)
+    except Exception:
+        # anything else that escapes a check is a failure of the machinery too (never exit code 1 without a VIOLATION line)
+        import traceback
+        print("MACHINERY-FAILURE: unexpected exception in the check\n%s" % traceback.format_exc()[-6000:])
+        sys.exit(2)
     sys.exit(rc)
